@@ -1257,6 +1257,7 @@ func runC12(r *Rng, tier string, n int) {
 	runRetain(r, tier)
 	runPoison(r, tier)
 	runDecorated(r, tier)
+	runTsigPool(r, tier)
 	runMultiHomed(r, tier)
 	runSessions(r, tier)
 	runKeptWriters(r, tier)
